@@ -19,7 +19,6 @@
 
 package types
 
-// Verification contracts (comment-only, tag verif) for property C05: a TCC prepare registers its
 // Verification contracts (comment-only, tag verif) for property C08: decoding a column image that
 // phase one wrote never panics - for ANY bytes: whatever encoding/json puts into the map, every
 // conversion is checked.
@@ -38,4 +37,6 @@ package types
 //@   requires c != nil
 //@   modifies heap.all
 //@   at return: assert text-is-kept-as-written: result == nil && localor("value", nil) != nil && isT(value, string) && (columnType == 1 || columnType == 12 || columnType == -1) ==> isT(c.Value, string) && c.Value.(string) == value.(string)
+//@   at return: assert integers-keep-their-width: result == nil && localor("value", nil) != nil && (columnType == 5 || columnType == 4 || columnType == -5) ==> (columnType == 5 && isT(c.Value, int16)) || isT(c.Value, int32) && columnType != -5 || isT(c.Value, int64) || isT(c.Value, float64)
+//@   at return: assert numbers-stay-numbers: result == nil && localor("value", nil) != nil && (columnType == -6 || columnType == 7) ==> isT(c.Value, int8) || isT(c.Value, int16) || isT(c.Value, int32) || isT(c.Value, int64) || isT(c.Value, float32) || isT(c.Value, float64)
 //@   nopanic
